@@ -15,6 +15,9 @@ type Ctx struct {
 	P         *core.Program
 	mayStore  map[*ssa.Function]map[string]bool
 	factCache map[ssa.Instruction][]Fact
+	// NonNilHook lets the rules vouch for values that are non-nil by a
+	// repository invariant they check themselves (container homogeneity).
+	NonNilHook func(v ssa.Value) bool
 }
 
 func NewCtx(p *core.Program) *Ctx {
@@ -236,7 +239,21 @@ func (c *Ctx) loadEquiv(x, y *ssa.UnOp, d int) bool {
 			}
 			return false
 		})
-	case *ssa.FreeVar, *ssa.Parameter, *ssa.Global:
+	case *ssa.FreeVar:
+		// captured variable: same variable, never assigned inside this closure,
+		// and no call in between that could run the assigning parent code
+		if y.X != ssa.Value(ax) {
+			return false
+		}
+		if refs := ax.Referrers(); refs != nil {
+			for _, r := range *refs {
+				if st, ok := r.(*ssa.Store); ok && st.Addr == ssa.Value(ax) {
+					return false
+				}
+			}
+		}
+		return true
+	case *ssa.Parameter, *ssa.Global:
 		return false
 	}
 	return false
